@@ -5,8 +5,8 @@ the clean tree and 1 on the patched one.  Then runs tools/seedall.py on it (chec
 import json, os, pathlib, re, shutil, subprocess, sys
 V = pathlib.Path(__file__).resolve().parent.parent
 prop = sys.argv[1]
-src = pathlib.Path(sys.argv[2] if len(sys.argv) > 2 else "/tmp/seed/out4-%s" % prop)
 rnd = int(os.environ.get("SEED_ROUND", "4"))
+src = pathlib.Path(sys.argv[2] if len(sys.argv) > 2 else "/tmp/seed/out%d-%s" % (rnd, prop))
 head = subprocess.check_output(["git", "-C", "/repo", "log", "--format=%h", "-1"], text=True).strip()
 
 
@@ -57,6 +57,6 @@ for d in sorted(src.iterdir()):
         names.append(dst.name)
     finally:
         subprocess.run(["git", "-C", "/repo", "worktree", "remove", "--force", wt], capture_output=True)
-subprocess.run(["git", "-C", "/repo", "worktree", "remove", "--force", "/tmp/seed/wt4-%s" % prop], capture_output=True)
+subprocess.run(["git", "-C", "/repo", "worktree", "remove", "--force", "/tmp/seed/wt%d-%s" % (rnd, prop)], capture_output=True)
 if names:
     subprocess.run(["python3", str(V / "tools" / "seedall.py")] + names, cwd=str(V))
